@@ -1261,6 +1261,49 @@ pub fn space_n(full: bool, depth: usize, f: &mut dyn FnMut(u64, &[u8])) -> u64 {
     idx
 }
 
+/// I: shifting ifs. An outer loop whose body is every sequence of <= `depth` tokens that contains an
+/// at-most-once loop with a net pointer shift (`[>[-]]`, `[<[-]]`, `[[-]>]`): the inner block's move is
+/// the last instruction before the outer loop's back edge, or is followed / preceded by I/O and stores.
+/// Three prefixes (constant, two cells, two inputs) and three suffixes (nothing, print the left
+/// neighbour, read and print).
+pub const I_TOKENS: &[&str] = &[",", ".", "+", "-", ">", "<", "[-]", "[>[-]]", "[<[-]]", "[[-]>]"];
+pub const I_PREFIXES: &[&str] = &["+", ">+<+", ",>,<"];
+pub const I_SUFFIXES: &[&str] = &["", "<.", ",."];
+
+pub fn space_i(depth: usize, f: &mut dyn FnMut(u64, &[u8])) -> u64 {
+    let mut idx = 0u64;
+    let mut body: Vec<usize> = Vec::new();
+    fn rec(left: usize, body: &mut Vec<usize>, idx: &mut u64, f: &mut dyn FnMut(u64, &[u8])) {
+        if left == 0 {
+            if body.iter().any(|&t| I_TOKENS[t].len() >= 6) {
+                for pre in I_PREFIXES {
+                    for suf in I_SUFFIXES {
+                        let mut p = pre.as_bytes().to_vec();
+                        p.push(b'[');
+                        for &t in body.iter() {
+                            p.extend_from_slice(I_TOKENS[t].as_bytes());
+                        }
+                        p.push(b']');
+                        p.extend_from_slice(suf.as_bytes());
+                        f(*idx, &p);
+                        *idx += 1;
+                    }
+                }
+            }
+            return;
+        }
+        for t in 0..I_TOKENS.len() {
+            body.push(t);
+            rec(left - 1, body, idx, f);
+            body.pop();
+        }
+    }
+    for n in 1..=depth {
+        rec(n, &mut body, &mut idx, f);
+    }
+    idx
+}
+
 /// S3r: loops around exactly three statements from the additive subset (x+=y destructive,
 /// x+=y preserving, x+=2y): cyclic dependencies between cells inside one iteration.
 pub fn space_s3_reduced(f: &mut dyn FnMut(u64, &[u8])) -> u64 {
@@ -1295,6 +1338,84 @@ pub fn space_s3_reduced(f: &mut dyn FnMut(u64, &[u8])) -> u64 {
                 }
             }
         }
+    }
+    idx
+}
+
+/// L3 (reduced): straight-line "compute; disturb; overwrite" triples at top level with the input-only
+/// prefix: a statement that computes into a variable, then an input / output / clear / increment, then a
+/// statement that overwrites a variable - the shapes in which a computed store is dead, partially dead
+/// or has its operand clobbered inside one basic block (dead-store elimination and use counting in the
+/// bytecode generator). The full three-statement space is thorough only.
+pub fn space_l3_reduced(f: &mut dyn FnMut(u64, &[u8])) -> u64 {
+    let all = all_stmts();
+    let emit = |s: &Stmt| {
+        let mut v = Vec::new();
+        s.emit(&mut v);
+        v
+    };
+    let first: Vec<Vec<u8>> = all
+        .iter()
+        .filter(|s| matches!(s, Stmt::AddD(..) | Stmt::AddP(..) | Stmt::Copy(..) | Stmt::Add2(..) | Stmt::SubD(..) | Stmt::Add3(..) | Stmt::Mul(..) | Stmt::Sq(..)))
+        .map(emit)
+        .collect();
+    let second: Vec<Vec<u8>> = all.iter().filter(|s| matches!(s, Stmt::In(_) | Stmt::Out(_) | Stmt::Zero(_) | Stmt::Inc(_))).map(emit).collect();
+    let third: Vec<Vec<u8>> = all.iter().filter(|s| matches!(s, Stmt::In(_) | Stmt::Zero(_) | Stmt::Copy(..))).map(emit).collect();
+    let mut idx = 0u64;
+    let mut prog = Vec::new();
+    for a in &first {
+        for b in &second {
+            for c in &third {
+                // two prefixes: three independent inputs, and one input duplicated into a and b (equal values
+                // in distinct cells: value numbering turns a*b into a square)
+                for prefix in [PREFIXES[0], ",[->+>+<<]>>[-<<+>>]<<"] {
+                    prog.clear();
+                    prog.extend_from_slice(prefix.as_bytes());
+                    prog.extend_from_slice(a);
+                    prog.extend_from_slice(b);
+                    prog.extend_from_slice(c);
+                    prog.extend_from_slice(EPILOGUE.as_bytes());
+                    f(idx, &prog);
+                    idx += 1;
+                }
+            }
+        }
+    }
+    idx
+}
+
+/// L: straight-line code: prefix, every sequence of `min_n..=k` statements at top level (no enclosing
+/// loop: the optimiser sees the known initial tape and one basic block), then `out` of every variable.
+pub fn space_l(min_n: usize, k: usize, f: &mut dyn FnMut(u64, &[u8])) -> u64 {
+    let stmts = all_stmts();
+    let mut pieces: Vec<Vec<u8>> = Vec::new();
+    for s in &stmts {
+        let mut v = Vec::new();
+        s.emit(&mut v);
+        pieces.push(v);
+    }
+    fn rec(pieces: &[Vec<u8>], n: usize, body: &mut Vec<u8>, idx: &mut u64, f: &mut dyn FnMut(u64, &[u8])) {
+        if n == 0 {
+            for prefix in PREFIXES {
+                let mut prog = prefix.as_bytes().to_vec();
+                prog.extend_from_slice(body);
+                prog.extend_from_slice(EPILOGUE.as_bytes());
+                f(*idx, &prog);
+                *idx += 1;
+            }
+            return;
+        }
+        for p in pieces {
+            let l = body.len();
+            body.extend_from_slice(p);
+            rec(pieces, n - 1, body, idx, f);
+            body.truncate(l);
+        }
+    }
+    let mut idx = 0u64;
+    let mut body = Vec::new();
+    for n in min_n..=k {
+        rec(&pieces, n, &mut body, &mut idx, f);
     }
     idx
 }
